@@ -531,5 +531,46 @@ def rule_i(prog, rep):
     core_write_operands(prog, rep, 'C11.i')
 
 
-RULES = [('C11.i', rule_i), ('C11.a', rule_a), ('C11.b', rule_b), ('C11.c', rule_c), ('C11.d', rule_d), ('C11.e', rule_e), ('C11.f', rule_f),
+def rule_j(prog, rep):
+    rep.rule('C11.j', 'T3', 'every follower gets every command: forward_to_followers sends the command to each registered follower '
+             'sender in one pass over the whole list; the list is not modified while it is being walked (dead followers are '
+             'collected and removed after the pass, by id) - removing inside the pass shifts the next follower into the visited '
+             'slot and skips it for this one command')
+    crate = prog.crate(WB)
+    f = crate.fn('forward_to_followers')
+    b = Bindings(crate, f)
+    loops = [nd for nd, a in crate.walk_fn(f) if nd.get('k') in ('for', 'loop')]
+    problems = []
+    sends = [(nd, anc) for nd, anc in crate.walk_fn(f) if nd.get('k') == 'call' and is_mpsc_send(callee(nd))]
+    if len(sends) != 1 or not any(a.get('k') in ('for', 'loop') for a in sends[0][1] if isinstance(a, dict)):
+        problems.append(f'{len(sends)} send sites / not inside a pass over the followers')
+    else:
+        so = b.origins(sends[0][0]['args'][0])
+        if not so or not all('param(client_write_txs)' in x for x in so):
+            problems.append(f'the sender is not an element of the follower list ({sorted(so)})')
+        if not all(x == 'param(cmd)' for x in b.origins(sends[0][0]['args'][1])):
+            problems.append('what is sent is not the command')
+    MUT = ('remove', 'swap_remove', 'retain', 'drain', 'clear', 'truncate', 'pop', 'insert', 'push', 'retain_mut', 'dedup', 'split_off')
+    for nd, anc in crate.walk_fn(f):
+        if nd.get('k') == 'call' and short(callee(nd)) in MUT and nd['args'] and 'Vec' in callee(nd) and \
+                b.origins(nd['args'][0]) == {'param(client_write_txs)'}:
+            inside = any(isinstance(a, dict) and a.get('k') in ('for', 'loop') for a in anc)
+            if inside:
+                problems.append(f'the follower list is modified ({short(callee(nd))}) while it is walked')
+            elif short(callee(nd)) != 'retain':
+                problems.append(f'followers are removed with {short(callee(nd))} instead of retain-by-id')
+    fors = [nd for nd in loops if nd.get('k') == 'for']
+    if fors and not all('param(client_write_txs)' in x for x in b.origins(fors[0]['iter'])):
+        problems.append('the pass is not over the follower list')
+    if not fors and loops and not problems:
+        problems.append('unrecognised-shape: the pass over the followers is not a `for` loop over the list')
+    if not loops:
+        problems.append('no pass over the followers')
+    if problems:
+        rep.violation('C11.j', 'forward_to_followers', f.loc, '; '.join(sorted(set(problems))), key='C11.j/forward_to_followers/' + '|'.join(sorted({p_.split(' (')[0] for p_ in problems})))
+    else:
+        rep.ok('C11.j', 'forward_to_followers', f.loc, 'for (id, tx) in list { tx.send(cmd.clone()) }; dead ones removed after the pass')
+
+
+RULES = [('C11.j', rule_j), ('C11.i', rule_i), ('C11.a', rule_a), ('C11.b', rule_b), ('C11.c', rule_c), ('C11.d', rule_d), ('C11.e', rule_e), ('C11.f', rule_f),
          ('C11.g', rule_g), ('C11.h', rule_h)]
